@@ -4,9 +4,11 @@ import UberjobModel.Model.FileStoreDrv
 import UberjobModel.Model.TextCodecDrv
 import UberjobModel.Model.TimeDrv
 import UberjobModel.Model.RefsDrv
+import UberjobModel.Model.HeapDrv
 import UberjobModel.Model.PlanDrv
 import UberjobModel.Model.SmallDrv
 import UberjobModel.Model.CacheDrv
+import UberjobModel.Model.Notify
 import UberjobModel.Model.ProgressDrv
 import UberjobModel.Model.PhysDrv
 /-!
@@ -116,10 +118,12 @@ def step (c : Ctx) (line : String) : Ctx × String :=
   | "text" :: _ => (c, Uberjob.TextCodec.drv line)
   | "c18" :: _ => (c, Uberjob.Time.drv line)
   | "c16" :: _ => (c, Uberjob.Refs.drv line)
+  | "c13plan" :: _ | "c13reg" :: _ | "c13run" :: _ => (c, Uberjob.Heap.drv line)
   | "c02" :: _ => (c, Uberjob.Plan.drv line)
   | "tb" :: _ | "retry" :: _ => (c, Uberjob.Small.drv line)
   | "progress" :: _ => (c, Uberjob.Progress.drv line)
   | "phys" :: _ => (c, Uberjob.Phys.drv line)
+  | "notifs" :: _ => (c, Notify.drv line)
   | "cplan" :: _ => let (d, r) := Cache.drv c.cache line; ({ c with cache := d }, r)
   | "cop" :: _ => let (d, r) := Cache.drv c.cache line; ({ c with cache := d }, r)
   | "cstale" :: _ => (c, (Cache.drv c.cache line).2)
